@@ -7,9 +7,10 @@
 (* {function, lambda, class, comprehension, none}; s3 in {function,        *)
 (* lambda, none}) with, per scope, the set of OCCURRENCES of the name v:   *)
 (*   P parameter        B plain assignment      A augmented assignment     *)
-(*   F for target       W with ... as           I import                   *)
+(*   F for target       W with ... as           M import                   *)
 (*   D def named v      X del                   U use (load)               *)
-(*   G global decl      N nonlocal decl         T comprehension target     *)
+(*   G global decl      N nonlocal decl         (Gi, Ni: inside an if)     *)
+(*   comprehensions: U element use, I iterable use, T target               *)
 (* The module defines, by the rules of the language reference (4.2.2       *)
 (* "Resolution of names", 7.12/7.13 global/nonlocal), which chains are     *)
 (* legal programs and, for every function scope, how CPython's compiler    *)
@@ -23,16 +24,21 @@
 EXTENDS Naturals, FiniteSets, Sequences, TLC, Json
 
 Kinds2 == {"function", "lambda", "class", "comprehension", "none"}
-Kinds3 == {"function", "lambda", "none"}
+Kinds3 == {"function", "lambda", "comprehension", "none"}
 
-Binding == {"P", "B", "A", "F", "W", "I", "D", "X", "T"}
+Binding == {"P", "B", "A", "F", "W", "M", "D", "X"}
 
 (* occurrence menus per scope kind (each a set of occurrence sets) *)
-FunOcc == { {}, {"U"}, {"B"}, {"B", "U"}, {"A"}, {"F"}, {"W"}, {"I"}, {"D"}, {"X", "B"}, {"P"}, {"P", "U"}, {"P", "B"},
-            {"G"}, {"G", "U"}, {"G", "B"}, {"G", "B", "U"}, {"N"}, {"N", "U"}, {"N", "B"}, {"N", "A"} }
+\* M = import v (I is the comprehension iterable);  Gi / Ni = the declaration is written inside an `if` block of the function
+FunOcc == { {}, {"U"}, {"B"}, {"B", "U"}, {"A"}, {"F"}, {"W"}, {"M"}, {"D"}, {"X", "B"}, {"P"}, {"P", "U"}, {"P", "B"},
+            {"G"}, {"G", "U"}, {"G", "B"}, {"G", "B", "U"}, {"N"}, {"N", "U"}, {"N", "B"}, {"N", "A"},
+            {"Gi", "B"}, {"Gi", "U"}, {"Ni", "B"}, {"Ni", "U"} }
 LamOcc == { {}, {"U"}, {"P"}, {"P", "U"} }
 ClsOcc == { {}, {"U"}, {"B"}, {"B", "U"}, {"D"}, {"G", "B"}, {"N", "B"}, {"N", "U"} }
-CmpOcc == { {}, {"U"} }      \* comprehension targets are excepted by the property (and isolated by PEP 709)
+\* comprehension: U = the element uses v, I = the (outermost) iterable mentions v, T = v is the target.  A target alone is
+\* excepted by the property (and its classification depends on PEP 709 inlining); with T and I together the iterable is
+\* evaluated in the enclosing scope BEFORE the target is bound, so v is a use of the enclosing scope.
+CmpOcc == { {}, {"U"}, {"I"}, {"T", "I"} }
 OccOf(k) == CASE k = "function" -> FunOcc [] k = "lambda" -> LamOcc [] k = "class" -> ClsOcc
               [] k = "comprehension" -> CmpOcc [] OTHER -> {{}}
 
@@ -41,7 +47,8 @@ vars == <<K, O>>
 
 Init == /\ K \in {<<"function", k2, k3>> : k2 \in Kinds2, k3 \in Kinds3}
         /\ (K[2] \in {"none", "comprehension"} => K[3] = "none")
-        /\ (K[2] = "lambda" => K[3] # "function")          \* a def cannot be nested in a lambda
+        /\ (K[2] = "lambda" => K[3] \notin {"function", "comprehension"})   \* a def cannot be nested in a lambda
+        /\ (K[2] = "class" => K[3] # "comprehension")
         /\ O \in {<<o1, o2, o3>> : o1 \in OccOf(K[1]), o2 \in OccOf(K[2]), o3 \in OccOf(K[3])}
 Next == UNCHANGED vars
 Spec == Init /\ [][Next]_vars
@@ -50,11 +57,12 @@ Depth == IF K[2] = "none" THEN 1 ELSE IF K[3] = "none" THEN 2 ELSE 3
 FunLike(i) == K[i] \in {"function", "lambda"}
 (* PEP 709 (Python 3.12): list comprehensions are inlined; the occurrences of a comprehension nested directly in *)
 (* scope i belong to scope i's symbol table (its target T becomes a local of i, its uses are uses of i).        *)
-Occ(i) == IF i < 3 /\ K[i + 1] = "comprehension" THEN O[i] \cup O[i + 1]
+CompUse(o) == IF o \cap {"U", "I"} # {} THEN {"U"} ELSE {}
+Occ(i) == IF i < 3 /\ K[i + 1] = "comprehension" THEN O[i] \cup CompUse(O[i + 1])
           ELSE IF K[i] = "comprehension" THEN {} ELSE O[i]
 
-DeclG(i) == "G" \in Occ(i)
-DeclN(i) == "N" \in Occ(i)
+DeclG(i) == Occ(i) \cap {"G", "Gi"} # {}
+DeclN(i) == Occ(i) \cap {"N", "Ni"} # {}
 Binds(i) == Occ(i) \cap Binding # {}
 Local(i) == Binds(i) /\ ~DeclG(i) /\ ~DeclN(i)
 Refs(i)  == Occ(i) \cap {"U", "A", "X"} # {}        \* the name is loaded (or deleted) in scope i itself
